@@ -98,7 +98,8 @@ class PersistentMixin(Module):
         try:
             with open(self.persistentFile, 'r', encoding='utf-8') as f:
                 self.persistentData = json.load(f)
-        except (FileNotFoundError, ValueError):
+        except (FileNotFoundError, ValueError, RecursionError):
+            # (a deeply nested file is as invalid as any other non JSON content)
             self.persistentData = {}
         if not isinstance(self.persistentData, dict):
             # the file contains valid JSON, but not an object
